@@ -16,7 +16,18 @@
                                [unique_params] (every fed member has its own params value) this is
                                [mon_start_distinct]: no request token starts its handler twice.
    (b) [mon_gate_after_start]: every [OGate p] is preceded by its own [OStart p] (scanning left to right, the
-                               number of gates of p never exceeds the number of starts of p).
+                               number of gates of p never exceeds the number of starts of p).  No hypothesis.
+   (d) [mon_barrier]         : (C03) once a handler of a request has been entered, no handler of a NOTIFICATION of
+                               an earlier fed message is entered or returns any more.  Hypothesis [unique_params]
+                               (tokens are looked up in the fed messages).  Proof: srv/SrvMonBarrier.v.
+   (c) [mon_reply_once]      : (C01) a response id other than null is sent at most as often as members with that id
+                               were fed.  No hypothesis.  Proof: srv/SrvMonReply.v.  ("No send after the close of the
+                               channel" is refuted there: a unit finishing after Stop is delivered to the closed
+                               channel and the send fails.)
+
+   [unique_params] is a hypothesis about the scenario, evaluated by the runner (ocaml/run_srv.ml) on the log's own
+   environment lines: it fails for scenarios with members without params or with repeated members, and the two
+   monitors that need it are then not evaluated (the others always are).
 
    Definitions first (executable, extracted: extract/srvmon.list), proofs after. *)
 From Coq Require Import List NArith ZArith Bool Arith Lia.
